@@ -34,8 +34,8 @@ def cases(tier, seed):
     for j in range(24 if tier == 'quick' else 500):
         yield {'stratum': 'two-logical-files-late-types', 'index': j, 'kind': 'two-lf'}
     for k in STEP_KINDS:
-        for j in range(3 if tier == 'quick' else 20):
-            yield {'stratum': 'single-step', 'index': i, 'kind': 'single', 'step': k}
+        for j in range((5 if k == 'hc-mode-around' else 3) if tier == 'quick' else 20):
+            yield {'stratum': 'single-step', 'index': i, 'kind': 'single', 'step': k, 'variant': j}
             i += 1
     for k in range(160 if tier == 'quick' else 4000):
         yield {'stratum': 'random-history', 'index': k, 'kind': 'random'}
@@ -341,13 +341,42 @@ def run_case(case):
     for ph in hist['phases']:
         if '__hc__' in ph.get('foreign', []):
             ph['foreign'] = [f for f in ph['foreign'] if f != '__hc__']
-            try:
-                from dliswriter import high_compatibility_mode
-                with high_compatibility_mode():
+            from dliswriter import high_compatibility_mode, high_compatibility_mode_decorator
+            forms_ = ['nested-with-exception', 'nested-decorated-calls', 'decorated-call-raises', 'managers-built-up-front',
+                      'manager-created-inside-entered-after']
+            form = forms_[case['variant'] % 5] if case.get('variant') is not None else r.choice(forms_)
+            bump('hc-usage-before-history:' + form)
+            if form == 'nested-with-exception':
+                try:
                     with high_compatibility_mode():
-                        raise KeyError('leave by exception')
-            except KeyError:
-                pass
+                        with high_compatibility_mode():
+                            raise KeyError('leave by exception')
+                except KeyError:
+                    pass
+            elif form in ('nested-decorated-calls', 'decorated-call-raises'):
+                @high_compatibility_mode_decorator
+                def export_one(fail):
+                    if fail:
+                        raise KeyError('inside a decorated function')
+
+                @high_compatibility_mode_decorator
+                def export_all(fail):
+                    export_one(False)
+                    export_one(fail)
+                try:
+                    export_all(form == 'decorated-call-raises')
+                except KeyError:
+                    pass
+            elif form == 'managers-built-up-front':
+                a_, b_ = high_compatibility_mode(), high_compatibility_mode()
+                with a_:
+                    with b_:
+                        pass
+            else:
+                with high_compatibility_mode():
+                    later = high_compatibility_mode()
+                with later:
+                    pass
     wout, data, outcomes, log = history.run_history(hist)
     all_ops = list(base['ops']) + [o for ph in hist['phases'] for o in ph.get('ops', [])]
     for i, o in enumerate(all_ops):
